@@ -34,10 +34,14 @@ NullFirst == {<<Ref("NonNullable", <<UnionT(<<Kw("null"), Str, Boo>>)>>), <<>>>>
 (* names whose values this file says nothing about (imported, global outside the table), enums, accesses through parents *)
 Outside == {<<Ref("Foreign", <<>>), <<>>>>, <<Ref("Imp", <<>>), <<ImportT("Imp")>>>>, <<Ref("ReturnType", <<FnT>>), <<>>>>,
             <<ArrT(Ref("Imp", <<>>)), <<ImportT("Imp")>>>>,
+            <<OpT("keyof", Obj), <<>>>>, <<OpT("readonly", ArrT(Str)), <<>>>>, <<QueryT("someValue"), <<>>>>, <<CondT, <<>>>>, <<MappedT, <<>>>>,
+            <<QRefT("NS", "Name"), <<>>>>, <<UnionT(<<QRefT("NS", "A"), QRefT("NS", "B")>>), <<>>>>,
+            <<Ref("Map", <<>>), <<ImportT("Map")>>>>, <<Ref("Error", <<>>), <<ImportT("Error")>>>>,
             <<Ref("TP", <<>>), <<TypeParamD("TP")>>>>, <<UnionT(<<Ref("TP", <<>>), Boo>>), <<TypeParamD("TP")>>>>,
             <<Ref("Klass", <<>>), <<ClassD("Klass")>>>>,
             <<Ref("ES", <<>>), <<EnumDecl("ES", <<"str", "str">>)>>>>, <<Ref("EN", <<>>), <<EnumDecl("EN", <<"num">>)>>>>,
-            <<Ref("EM", <<>>), <<EnumDecl("EM", <<"num", "str">>)>>>>, <<Ref("EE", <<>>), <<EnumDecl("EE", <<>>)>>>>,
+            <<Ref("EM", <<>>), <<EnumDecl("EM", <<"num", "str">>)>>>>, <<Ref("EA", <<>>), <<EnumDecl("EA", <<"auto", "auto", "str">>)>>>>,
+            <<UnionT(<<Ref("EA", <<>>), Kw("null")>>), <<EnumDecl("EA", <<"auto", "str">>)>>>>, <<Ref("EE", <<>>), <<EnumDecl("EE", <<>>)>>>>,
             <<IdxT(Ref("DX", <<>>), LitT("str", "a")),
               <<Interface("BX", <<>>, <<Prop("a", "ident", FALSE, Str)>>), Interface("DX", <<"BX">>, <<Prop("j", "ident", FALSE, Num)>>)>>>>,
             <<IdxT(Ref("IX", <<>>), LitT("str", "x")),
